@@ -129,11 +129,11 @@ func loadTable(c *core.Ctx, initFn *ssa.Function, field string, maxLen int) (rs 
 				}
 				k++
 			}
-			if !okOrder || (!wantErr && k != n) {
+			if !okOrder {
 				rs.fail("order", w)
 			}
 			rs.hit("bind")
-			if strings.Join(got, " ") != strings.Join(want, " ") {
+			if strings.Join(got, " ") != strings.Join(want, " ") || (okOrder && !wantErr && k != n) {
 				rs.fail("bind", w+fmt.Sprintf(" expected %v", want))
 			}
 			rs.hit("error")
